@@ -18,8 +18,13 @@ EXPLANATION = (
 INNER = ['C', '=N', 'nop', 'Branch1', '', ' ', 'x y', '#C@@H1', '1', '=', 'é', 'C+1']
 
 
-def wf_strings(maxtok):
-    toks = ['[%s]' % x for x in INNER]
+# inner texts a tokeniser built on regexes, str.splitlines, format strings or C-strings would stumble over
+ODD_INNER = ['\n', 'a\nb', '\r', '\t', '\x00', '\u2028', '\x0b', '\x1c', '\\', '(', '*', '+?', '^$', '{}', '%s', '\\n', '"',
+             "'", 'C\n', '\nC', '\x85', '\U0001f600']
+
+
+def wf_strings(maxtok, inner=None):
+    toks = ['[%s]' % x for x in (inner or INNER)]
     for n in range(0, maxtok + 1):
         for combo in itertools.product(range(len(toks) + 1), repeat=n):
             # index len(toks) stands for '.', allowed only after a symbol and not doubled
@@ -76,7 +81,7 @@ def floor(ctx):
     from harness.par import pmap, chunks
     from harness import enc, gen
     L = 4 if ctx.tier == 'quick' else 5
-    seqs = list(wf_strings(L))
+    seqs = list(wf_strings(L)) + list(wf_strings(2, ODD_INNER + ['C']))
     res = pmap(_work, chunks(seqs, 32))
     ev = sum(r[0] for r in res)
     nt = sum(r[1] for r in res)
